@@ -61,7 +61,10 @@ def execute(plan):
     if run.kind == 'heap':
       # saturating probe
       for r in list(run.outstanding_reqs()):
-        r.stack.AsyncProcessResponseMessage(MethodReturnMessage('ok'))
+        try:
+          r.stack.AsyncProcessResponseMessage(MethodReturnMessage('ok'))
+        except Exception as e:
+          run.raised('completing request %d on %r' % (r.id, r.channel), e)
       settle()
       for ch in run.live_channels().values():
         if not ch.close_steps:
